@@ -65,6 +65,7 @@ class Ctx:
         # helpers that did not exist when the rules were written are inlined at their call sites (see mir.PathEval._inline_summary)
         self.inline_set = frozenset()
         self.inlined = set()
+        self.desugar = False
 
     # -- helpers for rules
     def body(self, key, required=True, rule="ANCHOR"):
@@ -89,7 +90,7 @@ class Ctx:
         b = self.body(key)
         if b is None:
             return None
-        pe = mir.PathEval(self.fx, b, inline=self.inline_set)
+        pe = mir.PathEval(self.fx, b, inline=self.inline_set, desugar=kw.pop("desugar", self.desugar))
         ps = pe.paths(**kw)
         self.inlined |= pe.inlined
         self.paths_enumerated += len(ps)
@@ -193,6 +194,7 @@ def run_property(prop, tier, fx, fx_nd):
     mod = importlib.import_module("rules." + prop.lower())
     ctx = Ctx(prop, tier, fx, fx_nd)
     ctx.inline_set = inline_set(mod, fx)
+    ctx.desugar = bool(getattr(mod, "DESUGAR", False))
     mod.run(ctx)
     if ctx.inlined:
         ctx.note("helpers not present when the rules were written, inlined at their call sites: %s" % ", ".join(sorted(ctx.inlined)))
@@ -200,6 +202,7 @@ def run_property(prop, tier, fx, fx_nd):
     if tier == "thorough" and fx_nd is not None and getattr(mod, "CONFIG_SENSITIVE", True):
         ctx2 = Ctx(prop, tier, fx_nd, None, config="nodefault")
         ctx2.inline_set = inline_set(mod, fx_nd)
+        ctx2.desugar = bool(getattr(mod, "DESUGAR", False))
         try:
             mod.run(ctx2)
         except Exception:
